@@ -33,3 +33,136 @@ Proof.
   rewrite Rabs_mult, (Rabs_right (/ t)) by (left; apply Rinv_0_lt_compat; lra).
   apply Rmult_le_compat_r; [left; apply Rinv_0_lt_compat; lra|exact H].
 Qed.
+
+(* ---- validator on serialized documents ------------------------------------------------------------------- *)
+Local Open Scope string_scope.
+Lemma jvec_valid f (v : vec3 R) : validate (S (S (S f))) polliwog_defs (SRef "Vector3") (jvec v) = true.
+Proof. reflexivity. Qed.
+Lemma jvecs_valid f (vs : list (vec3 R)) :
+  forallb (validate (S (S (S f))) polliwog_defs (SRef "Vector3")) (map jvec vs) = true.
+Proof. induction vs as [|v r IH]; [reflexivity|]. cbn [map forallb]. rewrite IH, jvec_valid. reflexivity. Qed.
+
+Lemma pl_to_json_valid (p : polyline R) : pl_validate (pl_to_json p) = true.
+Proof.
+  unfold pl_validate, validate_ref, fuel0, pl_to_json.
+  change (validate 12 polliwog_defs (SRef "Polyline") ?j) with (validate 11 polliwog_defs polyline_schema j).
+  cbn [validate polyline_schema has_type andb forallb assoc String.eqb Ascii.eqb Bool.eqb fst snd opt_le opt_ge].
+  rewrite (jvecs_valid 6). reflexivity.
+Qed.
+Lemma serialize_validates d (p : polyline R) : pl_validate (pl_serialize ROps d p) = true.
+Proof. apply pl_to_json_valid. Qed.
+
+Lemma unjvecs_jvec (vs : list (vec3 R)) : unjvecs (map jvec vs) = Some vs.
+Proof. induction vs as [|[x y z] r IH]; [reflexivity|]. cbn [map unjvecs jvec unjvec vx vy vz]. rewrite IH. reflexivity. Qed.
+
+(* deserialize(serialize(p, d)) = rounded(p, d): every polyline, the empty one included, every d *)
+Lemma roundtrip_polyline d (p : polyline R) : pl_deserialize (pl_serialize ROps d p) = Ok (pl_rounded ROps d p).
+Proof.
+  unfold pl_deserialize. rewrite serialize_validates. unfold pl_serialize, pl_to_json.
+  cbn [assoc String.eqb Ascii.eqb Bool.eqb]. rewrite unjvecs_jvec. destruct (pl_rounded ROps d p); reflexivity.
+Qed.
+
+Lemma plane_to_json_valid (pl : plane R) : plane_validate (plane_to_json pl) = true.
+Proof. reflexivity. Qed.
+
+(* whenever rounded succeeds, serialize returns a valid document of the rounded plane, and deserialize of it
+   re-validates the normal at the default precision; at the default direction precision that is rounded() itself *)
+Lemma roundtrip_plane pd dd (pl r : plane R) : plane_rounded ROps pd dd pl = Ok r ->
+  plane_serialize ROps pd dd pl = Ok (plane_to_json r) /\ plane_validate (plane_to_json r) = true /\
+  plane_deserialize ROps (plane_to_json r) = plane_ctor ROps (pref r) (pnormal r) default_dd /\
+  (dd = default_dd -> plane_deserialize ROps (plane_to_json r) = Ok r).
+Proof.
+  intros H. unfold plane_serialize. rewrite H. cbn [rmap]. split; [reflexivity|]. split; [reflexivity|].
+  assert (Hd : plane_deserialize ROps (plane_to_json r) = plane_ctor ROps (pref r) (pnormal r) default_dd).
+  { unfold plane_deserialize. rewrite plane_to_json_valid. destruct r as [[a b c] [x y z]]. reflexivity. }
+  split; [exact Hd|]. intros ->. rewrite Hd. unfold plane_rounded, plane_ctor in *.
+  destruct (nleb ROps _ _) eqn:E in H; [|discriminate]. injection H as <-. cbn [pref pnormal]. rewrite E. reflexivity.
+Qed.
+
+(* deserialize never builds an object from data that validate refuses *)
+Lemma pl_deserialize_guarded (j : json R) p : pl_deserialize j = Ok p -> pl_validate j = true.
+Proof. unfold pl_deserialize. destruct (pl_validate j); [reflexivity|discriminate]. Qed.
+Lemma plane_deserialize_guarded (j : json R) p : plane_deserialize ROps j = Ok p -> plane_validate j = true.
+Proof. unfold plane_deserialize. destruct (plane_validate j); [reflexivity|discriminate]. Qed.
+
+(* ---- validate accepts only well-formed documents ---------------------------------------------------------- *)
+Lemma validate_S {F} f defs s (j : json F) : validate (S f) defs s j =
+  match s with
+  | SRef name => match assoc name defs with Some s' => validate f defs s' j | None => false end
+  | SNode ty props required additional items mi ma =>
+      match ty with None => true | Some t => has_type t j end &&
+      match j with
+      | JObj kv =>
+          forallb (fun k => match assoc k kv with Some _ => true | None => false end) required &&
+          forallb (fun ks => match assoc (fst ks) kv with
+                             | Some v => validate f defs (snd ks) v
+                             | None => true end) props &&
+          match additional with
+          | Some false => forallb (fun kv' => match assoc (fst kv') props with Some _ => true | None => false end) kv
+          | _ => true
+          end
+      | JArr l =>
+          opt_le mi (List.length l) && opt_ge ma (List.length l) &&
+          match items with Some si => forallb (validate f defs si) l | None => true end
+      | _ => true
+      end
+  end.
+Proof. reflexivity. Qed.
+
+Ltac vstep H := rewrite validate_S in H;
+  cbn [polyline_schema plane_schema vector3_schema polliwog_defs has_type andb forallb fst snd assoc String.eqb Ascii.eqb Bool.eqb
+       opt_le opt_ge] in H.
+
+Lemma vector3_wellformed f (e : json R) : validate (S (S (S f))) polliwog_defs (SRef "Vector3") e = true ->
+  exists x y z, e = JArr [JNum x; JNum y; JNum z].
+Proof.
+  intros H. vstep H. vstep H.
+  destruct e as [| | | |l|]; try discriminate H.
+  destruct l as [|a [|b [|c [|d r]]]]; cbn [List.length Nat.leb andb forallb] in H; try discriminate H.
+  rewrite !validate_S in H. destruct a, b, c; cbn [has_type andb] in H; try discriminate H.
+  eexists _, _, _. reflexivity.
+Qed.
+
+Lemma pl_validate_wellformed (j : json R) : pl_validate j = true ->
+  exists kv l b, j = JObj kv /\ assoc "vertices" kv = Some (JArr l) /\ assoc "isClosed" kv = Some (JBool b) /\
+    (forall k v, In (k, v) kv -> k = "vertices" \/ k = "isClosed") /\
+    (forall e, In e l -> exists x y z, e = JArr [JNum x; JNum y; JNum z]).
+Proof.
+  unfold pl_validate, validate_ref, fuel0. intros H. vstep H.
+  destruct j as [| | | | |kv]; try (vstep H; discriminate H).
+  vstep H.
+  apply andb_true_iff in H. destruct H as [H Hadd]. apply andb_true_iff in H. destruct H as [Hreq Hprops].
+  destruct (assoc "vertices" kv) as [vv|] eqn:Ev; [|discriminate Hreq].
+  destruct (assoc "isClosed" kv) as [cc|] eqn:Ec; [|discriminate Hreq].
+  apply andb_true_iff in Hprops. destruct Hprops as [Hc Hv]. rewrite andb_true_r in Hv.
+  vstep Hc. vstep Hv.
+  destruct cc as [|b| | | |]; try discriminate Hc.
+  destruct vv as [| | | |l|]; try discriminate Hv.
+  exists kv, l, b. split; [reflexivity|]. split; [exact Ev|]. split; [exact Ec|]. split.
+  - intros k v Hin. rewrite forallb_forall in Hadd. specialize (Hadd (k, v) Hin). cbn [fst assoc] in Hadd.
+    destruct (String.eqb_spec k "isClosed") as [->|_]; [right; reflexivity|].
+    destruct (String.eqb_spec k "vertices") as [->|_]; [left; reflexivity|discriminate Hadd].
+  - intros e Hin. cbn [andb] in Hv. rewrite forallb_forall in Hv. apply (vector3_wellformed 6). apply Hv. exact Hin.
+Qed.
+
+Lemma plane_validate_wellformed (j : json R) : plane_validate j = true ->
+  exists kv, j = JObj kv /\
+    (exists x y z, assoc "referencePoint" kv = Some (JArr [JNum x; JNum y; JNum z])) /\
+    (exists x y z, assoc "unitNormal" kv = Some (JArr [JNum x; JNum y; JNum z])) /\
+    (forall k v, In (k, v) kv -> k = "referencePoint" \/ k = "unitNormal").
+Proof.
+  unfold plane_validate, validate_ref, fuel0. intros H. vstep H.
+  destruct j as [| | | | |kv]; try (vstep H; discriminate H).
+  vstep H.
+  apply andb_true_iff in H. destruct H as [H Hadd]. apply andb_true_iff in H. destruct H as [Hreq Hprops].
+  destruct (assoc "referencePoint" kv) as [rr|] eqn:Er; [|discriminate Hreq].
+  destruct (assoc "unitNormal" kv) as [nn|] eqn:En; [|discriminate Hreq].
+  apply andb_true_iff in Hprops. destruct Hprops as [Hr Hn]. rewrite andb_true_r in Hn.
+  exists kv. split; [reflexivity|].
+  split; [|split].
+  - destruct (vector3_wellformed 7 rr) as [x [y [z ->]]]; [exact Hr|]. eexists _, _, _. exact Er.
+  - destruct (vector3_wellformed 7 nn) as [x [y [z ->]]]; [exact Hn|]. eexists _, _, _. exact En.
+  - intros k v Hin. rewrite forallb_forall in Hadd. specialize (Hadd (k, v) Hin). cbn [fst assoc] in Hadd.
+    destruct (String.eqb_spec k "referencePoint") as [->|_]; [left; reflexivity|].
+    destruct (String.eqb_spec k "unitNormal") as [->|_]; [right; reflexivity|discriminate Hadd].
+Qed.
